@@ -742,6 +742,40 @@ example : (run2 wstep .close W2.init exSched).done.map (fun x => (x.1, x.2.2.sta
 example : ((run2 wstep .close W2.init exSched).op 2).isSome = true := by decide
 example : fairAct (.ev .wr (.ready [.eintr, .bytes 1])) = true ∧ fairAct (.ev .wr (.ready [.eagain])) = false := by decide
 
+/-- ★ SHARED STREAM, reads, all schedules (the read counterpart of `shared_stream_write_delivers_in_order`). -/
+theorem shared_stream_read_in_order {α : Type} (chunk recvfrom : Bool) (limC base n : Nat) (inc : List α) (f : Nat)
+    (as : List (Act2 (RS α) REv)) (w : W2 (RS α)) (hinv : Inv2 w)
+    (ho : w.op f = some (.rd, ⟨chunk, recvfrom, limC, base, rInit n inc, [], .pending⟩)) :
+    let t := runRead chunk recvfrom limC base (rInit n inc) (evsOf .close .rd as)
+    (t.res = .pending → ∃ s, (run2 rstep .close w as).op f = some (.rd, s) ∧ s.st = t.st ∧ s.calls = t.calls) ∧
+    (t.res ≠ .pending → ∃ s, (f, .rd, s) ∈ (run2 rstep .close w as).done ∧ s.st = t.st ∧ s.calls = t.calls ∧ s.res = t.res) ∧
+    t.st.got.length ≤ n ∧ t.st.got ++ t.st.inc = inc :=
+  shared_stream_read_exact chunk recvfrom limC base n inc f as w hinv ho
+
+/-- ★ system-level liveness for reads, fairness of the kernel as explicit hypothesis -/
+theorem shared_stream_read_terminates_under_fairness {α : Type} (chunk recvfrom : Bool) (limC base n : Nat) (inc : List α) (f : Nat)
+    (sched : Nat → Act2 (RS α) REv) (w : W2 (RS α)) (hinv : Inv2 w)
+    (ho : w.op f = some (.rd, ⟨chunk, recvfrom, limC, base, rInit n inc, [], .pending⟩))
+    (hc : ∀ i e, sched i = .ev .rd e → e.closed = true)
+    (fair : ∀ k, ∃ j, k ≤ j ∧ fairActR (sched j) = true) :
+    ∃ m s, (f, Dir.rd, s) ∈ (run2 rstep .close w (prefixOf sched m)).done ∧ s.res.ended = true :=
+  shared_stream_read_ends_under_fairness chunk recvfrom limC base n inc f sched w hinv ho hc fair
+
+/-- ★ closing a shared stream wakes everybody: in every reachable state, after `janet_stream_close` no fiber has an
+    operation pending on the stream (each registered callback got its CLOSE event: the reader returns nil, the writer
+    raises "stream closed" — `close_wakes_pending_op`), for any callback machines. -/
+theorem shared_stream_close_wakes_all {σ ε : Type} (step : σ → ε → σ × Bool) (c : ε) (as : List (Act2 σ ε)) (g : Nat) :
+    (run2 step c W2.init (as ++ [.close])).op g = none := by
+  have happ : ∀ (a b : List (Act2 σ ε)) (w : W2 σ), run2 step c w (a ++ b) = run2 step c (run2 step c w a) b := by
+    intro a
+    induction a with
+    | nil => intro b w; rfl
+    | cons x a ih => intro b w; exact ih b _
+  rw [happ]
+  exact close_leaves_nothing_pending step c _ (shared_stream_invariant step c as) g
+
+example : ((run2 wstep .close W2.init (exSched ++ [.close])).done.map (fun x => (x.1, x.2.2.res))) = [(0, .done), (2, .failed .closed)] := by decide
+
 end Shared
 
 end JanetModel.Props.C16
